@@ -258,6 +258,15 @@ def run_pushforward(case):
         ec2 = float(np.mean(np.all(big <= x, axis=1)))
         if ec2 != ec:
             bad("empirical_cdf_value", {"x": x, "empirical_cdf": ec, "recomputed": ec2})
+        # explicitly SEEDED samples (int seed, numpy integer, Generator) follow the push-forward as well
+        for kind, rs_ in (("int", 7), ("npint", np.int64(11)), ("generator", np.random.default_rng(13))):
+            Sd = np.asarray(t.draw_sample(200000, random_state=rs_), dtype=float)
+            n += 1
+            lo, hi = stats.binom_band(len(Sd), min(max(b, 0.0), 1.0))
+            kk_ = float(np.sum(np.all(Sd <= x, axis=1)))
+            if Sd.shape != (200000, 2) or not (lo <= kk_ <= hi):
+                bad("seeded_sample_outside_band", {"x": x, "random_state": kind, "empirical": kk_ / len(Sd), "exact": b,
+                                                   "band": [lo / len(Sd), hi / len(Sd)]})
     return {"viol": viol, "n": n, "nontrivial": n, "outcomes": [f"push:{len(viol)}"], "count": count}
 
 
